@@ -1,4 +1,4 @@
-import InfernoVerif.Lemmas.Persist
+import InfernoVerif.Props.C12Core
 import InfernoVerif.Props.C01
 /-!
 # C12 — checkpoint at any step, restore into another instance, identical future
@@ -25,16 +25,6 @@ variable {β : Type}
 /-! ## Generic theorems -/
 
 
-/-- If loading what `s` saved into `t` succeeds (same configuration), the restored target and the
-uninterrupted source produce the same outputs for EVERY continuation and stay in agreement on all
-read fields. -/
-theorem resume_equiv {D In Out : Type} (C : Comp D) (step : C.State → In → C.State × Out)
-    (hres : Resumes C) (hresp : Respects C step) (s t t' : C.State)
-    (hs : C.Inv s) (ht : C.Inv t) (hc : C.sameConfig s t) (hl : C.load (C.save s) t = .ok t')
-    (xs : List In) :
-    (run step t' xs).2 = (run step s xs).2 ∧ C.view (run step t' xs).1 = C.view (run step s xs).1 :=
-  run_resume C step hresp s t' (hres s t t' hs ht hc hl) xs
-
 /-- Checkpoint after an arbitrary prefix `pre` of a run from `s₀`: outputs before the checkpoint
 followed by the outputs of the restored target on `post` are the outputs of the uninterrupted run on
 `pre ++ post` — for every `pre`, `post`, and every target `t` (in an arbitrary prior state) that
@@ -48,13 +38,6 @@ theorem checkpoint_anywhere {D In Out : Type} (C : Comp D) (step : C.State → I
   simp only
   rw [(resume_equiv C step hres hresp _ t t' hs ht hc hl post).1]
 
-/-- A component whose `view` is the whole state is respected by every step function. -/
-theorem respects_of_injective {D In Out : Type} (C : Comp D) (hinj : ∀ a b, C.view a = C.view b → a = b)
-    (step : C.State → In → C.State × Out) : Respects C step := by
-  intro s t x h
-  cases hinj s t h
-  exact ⟨rfl, rfl⟩
-
 /-- … and products of such components are again of that kind. -/
 theorem prod_view_injective {D₁ D₂ : Type} (C₁ : Comp D₁) (C₂ : Comp D₂)
     (h₁ : ∀ a b, C₁.view a = C₁.view b → a = b) (h₂ : ∀ a b, C₂.view a = C₂.view b → a = b) :
@@ -63,20 +46,6 @@ theorem prod_view_injective {D₁ D₂ : Type} (C₁ : Comp D₁) (C₂ : Comp D
   change (C₁.view a.1, C₂.view a.2) = (C₁.view b.1, C₂.view b.2) at h
   simp only [Prod.mk.injEq] at h
   exact Prod.ext (h₁ _ _ h.1) (h₂ _ _ h.2)
-
-/-- Composition: a product of components resumes if each does. -/
-theorem compose_resumes {D₁ D₂ : Type} (C₁ : Comp D₁) (C₂ : Comp D₂) (h₁ : Resumes C₁) (h₂ : Resumes C₂) :
-    Resumes (C₁.prod C₂) := by
-  intro s t t' hs ht hc hl
-  change (match C₁.load (C₁.save s.1) t.1, C₂.load (C₂.save s.2) t.2 with
-    | .ok a, .ok b => Except.ok (a, b)
-    | .error e, .ok _ => .error e
-    | .ok _, .error e => .error e
-    | .error e₁, .error e₂ => .error (e₁ ++ e₂)) = .ok t' at hl
-  split at hl <;> try cases hl
-  rename_i a b ha hb
-  show (C₁.view a, C₂.view b) = (C₁.view s.1, C₂.view s.2)
-  rw [h₁ s.1 t.1 a hs.1 ht.1 hc.1 ha, h₂ s.2 t.2 b hs.2 ht.2 hc.2 hb]
 
 /-! ## Strict loading rejects key and shape disagreements -/
 
@@ -455,11 +424,6 @@ theorem resume_equiv_classifier {Δ In Out : Type} (derive : Tens β → Δ) (in
   (resume_equiv (clfComp β Δ derive true) (clfStep derive infer upd) (load_save_agrees_on_read_fields_classifier derive)
     (respects_of_injective _ (fun _ _ h => h) _) s t t' hs ht trivial hl xs).1
 
-/-- `sync` is established by the first update and kept by every later one. -/
-theorem classifier_inv_step {Δ In Out : Type} (derive : Tens β → Δ) (infer : Δ → In → Out)
-    (upd : Tens β → In → Tens β) (s : Clf β Δ) (x : In) :
-    (clfStep derive infer upd s x).1.derived = derive (clfStep derive infer upd s x).1.rates := rfl
-
 /-! ## The excluded cases are rejected, not silently accepted -/
 
 /-- `RecurrentSerial.feedback_spikes` (candidate D27): a source that has taken a step (buffer set)
@@ -511,15 +475,16 @@ theorem classifier_without_hook_diverges :
   cases h2
 
 /-- A classifier state whose derived buffers are NOT in sync with its rates (the freshly constructed
-classifier of `/repo`: `occurrences_ = 0` although `bincount(argmax(0)) = [n, 0, …]`) is not
-reproduced by save + load: finding `C12:classifier:fresh-derived-buffers`. -/
+classifier before D31 was repaired: `occurrences_ = 0` although `bincount(argmax(0)) = [n, 0, …]`) is
+not reproduced by save + load: finding key `C12:classifier:fresh-derived-buffers`. -/
 theorem fresh_classifier_not_invariant :
     ∃ s t' : Clf Nat Nat, (clfComp Nat Nat (fun r => r.rows.length) true).load
         ((clfComp Nat Nat (fun r => r.rows.length) true).save s) s = .ok t' ∧ t' ≠ s :=
   ⟨⟨⟨[2], [[0], [0]]⟩, 0⟩, ⟨⟨[2], [[0], [0]]⟩, 2⟩, by simp [clfComp, strictErrors_single, List.lookup], by simp⟩
 
-/-- Without cache invalidation on load, a target whose reduction cache is warm keeps applying its
-OWN stale reduction: finding `C12:accumulator:stale-reduction-cache`.  (`red` = first part.) -/
+/-- Without cache invalidation on load (the code before D32 was repaired), a target whose reduction
+cache is warm keeps applying its OWN stale reduction: finding key
+`C12:accumulator:stale-reduction-cache`.  (`red` = first part.) -/
 theorem accumulator_warm_cache_diverges :
     ∃ (s t t' : Acc Nat), (accComp Nat List.head? false).Inv s ∧ (accComp Nat List.head? false).Inv t ∧
       (accComp Nat List.head? false).load ⟨s.pos, s.neg⟩ t = .ok t' ∧
